@@ -413,13 +413,25 @@ func ruleExactTruncation(min int) func(p *Prog, l *Ledger, tier string) {
 						continue
 					}
 					for k, side := range []ssa.Value{m.X, m.Y} {
-						q, ok := stripConv(side).(*ssa.BinOp)
-						if !ok || q.Op != token.QUO || !isIntegerT(q.Type()) {
-							continue
-						}
 						other := m.Y
 						if k == 1 {
 							other = m.X
+						}
+						// d.Milliseconds() / d.Microseconds() are truncating quotients too
+						if c, ok := stripConv(side).(*ssa.Call); ok {
+							if cn := calleeName(&c.Call); cn == "(time.Duration).Milliseconds" || cn == "(time.Duration).Microseconds" {
+								if one, isC := constInt(stripConv(other)); isC && (one == 1 || one == 1000 || one == 1000000) {
+									continue // back to a Duration in whole units: an intended truncation to that unit
+								}
+								n++
+								key := l.Key(rule, name, "scaled-quotient", cn)
+								l.Fail(rule, name, key, p.Pos(m.Pos()), fmt.Sprintf("%s scales %s, which has already dropped the sub-unit part of the duration: a frame boundary that is not a whole number of that unit (33.333334 ms at 30 fps) is computed one too low", name, cn))
+							}
+							continue
+						}
+						q, ok := stripConv(side).(*ssa.BinOp)
+						if !ok || q.Op != token.QUO || !isIntegerT(q.Type()) {
+							continue
 						}
 						n++
 						key := l.Key(rule, name, "scaled-quotient", descOf(q.Y))
